@@ -19,13 +19,17 @@ RULE = ('hypothesis: 1-4 rows of JSON documents (dict/list nesting <= 3; keys fr
         'IntArray; ONE operation per case: JSON path projection, path ==,!=,<,>,<=,>= scalar, is [not] None, key/item '
         '[not] in path, len(path) (projection and comparison), [not] path truthiness; array a[i], a[i] cmp v, a[i:j], '
         'v [not] in a, [..] [not] in a (subset), len(a), [not] a; every key/index/operand as literal or parameter '
-        '(array bounds also as column / omitted); mode json1|fallback; form string query | generator object. '
+        '(array bounds also as column / omitted); or 2-3 JSON path operations over the same attribute in ONE query '
+        '((c1) and (c2), (c1) or (c2), tuple projection), most often sharing the same query variable(s) and differing '
+        'only in a literal path component, also all-literal and independent-variable mixes; every case is run in the '
+        'four configurations mode json1|fallback x form string query | generator object. '
         'PostgreSQL: key lists -> PGSQLBuilder.eval_json_path -> own array-literal lexer -> same key list. '
         'A case is the whole (rows, operation, mode, form) tuple; it is non-trivial when at least one row is asserted '
         '(not unspecified) with the path present in that row (JSON), or at least one row asserted (array), or a key '
         'that is not an identifier / an index (PostgreSQL); distinct by hash of the tuple. Unspecified (skipped per row): '
         'ordering comparisons Python refuses (TypeError), len() of a non-list, `k in` a JSON string, `k not in` a '
-        'non-container, array index out of range. A comparison with a missing path / JSON null filters the row (SQL NULL).')
+        'non-container, array index out of range; a combined condition is asserted when a false operand decides `and`, '
+        'a true one decides `or`, or no operand is unspecified. A comparison with a missing path / JSON null filters the row (SQL NULL).')
 ASSUMPTIONS = ['SQLite 3.40 with JSON1 live through pony.orm.dbproviders.sqlite; the fallback is forced with '
                'provider.json1_available = False before generate_mapping',
                'Python evaluation on json-decoded values is the reference; floats are restricted to exactly '
@@ -330,7 +334,8 @@ MANIFEST = {
     'text': 'Hypothesis search on live SQLite in two configurations (JSON1 functions; forced pure-Python py_json_* fallback): '
             'rows of generated JSON documents (nesting <= 3, keys needing every kind of path quoting, all leaf types, empty '
             'containers) or Int/Str/Float arrays, one query operation per case (path projection, comparison with scalars, '
-            'is None, key/item membership, len, truthiness; array index/slice/contains/subset/len/truthiness), operands as '
+            'is None, key/item membership, len, truthiness; array index/slice/contains/subset/len/truthiness; or two to '
+            'three JSON path operations combined with and / or / as a tuple, sharing query variables), operands as '
             'literals or parameters, string-query and generator forms, each row compared with the same operation on the '
             'decoded Python value. PostgreSQL is covered only at the level of the #> path operand: eval_json_path output '
             'decoded by an independent array-literal lexer must give back the key list. Sampled, not exhaustive.',
